@@ -1,7 +1,7 @@
 """C14 - rebuild only adds verified copies; it never damages sources or existing files."""
 import ast
 
-from tfsa.flow import Flow, walk_terms, show
+from tfsa.flow import Flow, walk_terms, show, merged_positions
 from tfsa.loader import own_nodes, AnalysisError
 from tfsa.report import norm
 from tfsa.resolve import const_str
@@ -98,7 +98,12 @@ def who_may_write(ctx, flow, effs):
                          | {"namespace." + x[2] for x in pl if x[0] == "attr" and x[2] in ("contents", "metafiles")})
             dst = any((x[0] == "param" and x[2] in ("dest", "destination")) or (x[0] == "attr" and x[2] == "destination") for x in walk_terms(t))
             cut = any(x[0] == "unknown" and x[1] in ("depth", "wide") for x in walk_terms(t))
-            if src:
+            if src and dst and merged_positions(t, lambda x: (x[0] == "param" and x[2] in SOURCE_PARAMS) or (x[0] == "attr" and x[2] in ("contents", "metafiles"))):
+                # records that hold a source next to a destination component travel through a container whose positions the
+                # origin terms merge: the written path reaches the destination argument, the source may be the other field
+                ctx.undecided("C14.1", e.fn, "%s: the written path is selected from records that also carry %s; the origin terms do not keep the fields apart" % (e.prim, ", ".join(src)),
+                              norm(e.site) + " :: " + norm(a), path=where)
+            elif src:
                 ctx.violated("C14.1", e.fn, "%s writes to a path derived from %s: the search directories / metafiles must only be read" % (e.prim, ", ".join(src)),
                              norm(e.site) + " :: " + norm(a), path=where)
             elif not dst and cut:
@@ -234,6 +239,25 @@ def always_copying(ctx, copyfns):
                 if g.exit in g.live_nodes() and any(g.dominates(c, g.exit) for c in cs):
                     out.add(caller)
                     changed = True
+                    continue
+                # a function that copies once for every element of a list it is given (`for record in selected: copy(...)`)
+                for lp in [n for n in own_nodes(caller.node) if isinstance(n, ast.For) and isinstance(n.iter, ast.Name) and n.iter.id in caller.params]:
+                    head = g.of.get(lp)
+                    bs = C.succ_by_label(head, "iter") if head is not None else []
+                    inner = {c for c in cs if lp in _ancestors_of(ctx, c.ast, caller)}
+                    if bs and inner and g.must_pass(bs[0], head, inner) and g.dominates(head, g.exit):
+                        out.add(caller)
+                        changed = True
+                        break
+    return out
+
+
+def _ancestors_of(ctx, node, fn):
+    out = []
+    p = ctx.prog.parent.get(node)
+    while p is not None and p is not fn.node:
+        out.append(p)
+        p = ctx.prog.parent.get(p)
     return out
 
 
@@ -249,11 +273,22 @@ def verified_source(ctx, flow, copyfns, reach):
             sites += 1
             s = bound.get(src_p)
             d = bound.get(dst_p) if dst_p else None
+            if isinstance(s, (ast.Attribute, ast.Subscript)) and isinstance(s.value, ast.Name):
+                # a field of a candidate record (candidate.path / candidate[0]): the record is the candidate variable
+                s = s.value
             if not isinstance(s, ast.Name):
                 ctx.violated("C14.3", caller, "the copy source %s is not a candidate variable of a search loop" % norm(s), call)
                 continue
             loop, idx, sibs = candidate_loop(ctx, caller, call, s.id)
-            if loop is not None:
+            made = _record_sites(ctx, flow, caller, loop, idx) if loop is not None and idx is not None else None
+            if made is not None:
+                # the loop walks records (tuples / namedtuples holding the chosen source) that another function put together:
+                # the selection is judged where the records are made
+                if not made:
+                    ctx.undecided("C14.3", caller, "the copy source %r is taken from records assembled elsewhere; where they are made could not be located" % s.id, call)
+                for f2, st2, cand2 in made:
+                    judge_selection(ctx, flow, f2, st2, cand2, "%s -> %s" % (norm(call)[:40], norm(st2)[:40]))
+            elif loop is not None:
                 judge_selection(ctx, flow, caller, call, s.id, norm(call))
             else:
                 # source = select(...): the candidate is chosen by a package function; judge each place where it returns one
@@ -313,6 +348,33 @@ def verified_source(ctx, flow, copyfns, reach):
     ctx.floor("call sites of the copy function in rebuild", 2, sites)
 
 
+def _record_sites(ctx, flow, fn, loop, idx):
+    """`for a, b in records` where records is not the search index but a list of tuple displays / namedtuples put together by
+    `x.append((.., cand, ..))` elsewhere in the rebuild module: [(function, append statement, candidate name)], [] when they
+    cannot be located; None when the loop does not walk such records."""
+    it = loop.iter
+    if not isinstance(it, ast.Name):
+        return None
+    t = flow.term(it, fn)
+    if not flow._tuple_elements(t, idx):
+        return None
+    # the loop walks the search index itself when the iterated name is indexed / .get() out of it
+    out = []
+    for f2 in ctx.prog.functions.values():
+        if f2.module.name != "torrentfile.rebuild":
+            continue
+        for n in own_nodes(f2.node):
+            if isinstance(n, ast.Call) and isinstance(n.func, ast.Attribute) and n.func.attr == "append" and len(n.args) == 1:
+                a = n.args[0]
+                elts = a.elts if isinstance(a, ast.Tuple) else (flow.as_tuple(a, f2) if isinstance(a, ast.Call) else None)
+                if elts and len(elts) > idx and isinstance(elts[idx], ast.Name):
+                    # only appends whose list can reach the loop: the loop's term mentions this construction
+                    lp, _, _ = candidate_loop(ctx, f2, n, elts[idx].id)
+                    if lp is not None:
+                        out.append((f2, ctx.prog.enclosing_stmt(n), elts[idx].id))
+    return out
+
+
 def _parked_candidates(ctx, flow, fn, value):
     """value is `<obj>.<attr>[key]`: ([(function, store statement, key expr, stored candidate name)], attr text) for the
     stores `<something>.<attr>[k] = name` of the rebuild module; None if value has another shape."""
@@ -364,7 +426,8 @@ def judge_selection(ctx, flow, caller, node, cand, label):
         if isinstance(x, ast.Compare) and len(x.ops) == 1 and isinstance(x.ops[0], (ast.Eq, ast.NotEq)):
             sides = [x.left, x.comparators[0]]
             for a, o in (sides, sides[::-1]):
-                if isinstance(a, ast.Name) and a.id in sibs:
+                rec_field = isinstance(a, (ast.Attribute, ast.Subscript)) and isinstance(a.value, ast.Name) and a.value.id == cand
+                if (isinstance(a, ast.Name) and a.id in sibs) or rec_field:
                     ot = flow.term(o, caller)
                     if any(y[0] == "ext" and y[1] == "pyben.load" for y in walk_terms(ot)):
                         return isinstance(x.ops[0], ast.Eq)
@@ -398,6 +461,28 @@ def judge_selection(ctx, flow, caller, node, cand, label):
                 hash_ok = True
             else:
                 why = "the hash that is compared is not computed from the candidate %r that gets copied" % cand
+    if not hash_ok and why.startswith("no controlling test"):
+        # a controlling test whose operand comes out of a recursive / helper call that does not reduce to a comparison the
+        # origin terms show (a search that returns a list or None ...): the verification may sit there
+        for b in (n_ for n_ in region if n_.kind == "test"):
+            t = C.test_expr(b)
+            if t is None or blocked(lambda x, t=t: None) is True:
+                continue
+            for a in C.atoms_of(t):
+                # the operand: a local bound once to the result of a search function of this module (possibly the recursion)
+                opnd = a.left if isinstance(a, ast.Compare) and len(a.ops) == 1 and isinstance(a.ops[0], (ast.Is, ast.IsNot)) else a
+                if not isinstance(opnd, ast.Name):
+                    continue
+                bl = ctx.res.bindings(caller).get(opnd.id, [])
+                if not (len(bl) == 1 and bl[0][0] == "value" and isinstance(bl[0][1], ast.Call)
+                        and any(t_.module.name == "torrentfile.rebuild" for t_ in C.targets_of(ctx, caller, bl[0][1]))):
+                    continue
+                rets = [r_ for t_ in C.targets_of(ctx, caller, bl[0][1]) for r_ in ctx.res.return_exprs(t_)]
+                if all(isinstance(r_, (ast.Compare, ast.Constant, ast.Name, ast.BoolOp)) for r_ in rets) and isinstance(a, ast.Name):
+                    continue        # a boolean verdict: the origin terms show what it compares
+                if (blocked(lambda x, a=a: True if x is a else None) or blocked(lambda x, a=a: False if x is a else None)):
+                    ctx.undecided("C14.3", caller, "the copy depends on `%s`, the result of a search that the origin terms do not reduce to a hash comparison: whether the candidate was verified is decided inside that call" % norm(a)[:60], label + " :: hash")
+                    return
     ctx.decide("C14.3", caller, hash_ok, "the copy is conditional on a recorded hash equalling the hash of bytes read from this very candidate (or the recorded length being zero)",
                "unverified copy: " + why, label + " :: hash")
 
@@ -538,7 +623,8 @@ def local_chain_uses(ctx, fn, expr, cand, loop):
         e = work.pop()
         for n in ast.walk(e):
             if isinstance(n, ast.Call):
-                if any(isinstance(a, ast.Name) and a.id == cand for a in list(n.args) + [k.value for k in n.keywords]):
+                if any((isinstance(a, ast.Name) and a.id == cand) or (isinstance(a, (ast.Attribute, ast.Subscript)) and isinstance(a.value, ast.Name) and a.value.id == cand)
+                       for a in list(n.args) + [k.value for k in n.keywords]):
                     return True
             if isinstance(n, ast.Name) and isinstance(n.ctx, ast.Load) and n.id not in seen and n.id != cand:
                 seen.add(n.id)
